@@ -4,7 +4,7 @@
    Init -> Start(rpc, variant, plan) -> Deliver* into the cases the Go harness executes. *)
 EXTENDS Renter, Json
 
-St(r, v, p, ps, o, b) == [rpc |-> r, variant |-> v, plan |-> p, pos |-> ps, outcome |-> o, bound |-> b]
+St(r, v, p, ps, o, b) == [rpc |-> r, variant |-> v, plan |-> p, pos |-> ps, outcome |-> o, bound |-> b]   \* (wire is constantly TRUE in the model)
 
 EmitEdge ==
     PrintT("EDGE " \o ToJson([from |-> St(rpc, variant, plan, pos, outcome, bound),
